@@ -157,23 +157,21 @@ Definition add_dangling (m : list (lbl * list Z)) (l : lbl) (r : Z) : list (lbl 
 
 (* common shape of emit1 emit2 emit2Label emit3 emit3Label emit4: write, then (listing on) emitBase and
    the line at the current address, then address += size, then (label forms) record address-1 / -2 *)
-(* what emit<k> does after write() succeeded *)
-Definition emit_post (k : ikind) (l : lbl) (e1 : em) : em :=
-  let e2 := if gen e1
-            then (let eb := emitBase e1 in
-                  add_lines [mkLine (ins_kind k) (address eb) (ins_len k)
-                                    (if is_label_kind k then l else nolbl) []] eb)
-            else e1 in
-  let e3 := set_address (w32 (address e2 + ins_len k)) e2 in
-  match k with
-  | E2L => set_d8 (add_dangling (d8 e3) l (w32 (address e3 - 1))) e3
-  | E3L => set_d16 (add_dangling (d16 e3) l (w32 (address e3 - 2))) e3
-  | _ => e3
-  end.
 Definition emitK (k : ikind) (d : list Z) (l : lbl) (e : em) : outcome :=
   match write d e with
   | None => Refused e
-  | Some e1 => Done (emit_post k l e1)
+  | Some e1 =>
+      let e2 := if gen e1
+                then (let eb := emitBase e1 in
+                      add_lines [mkLine (ins_kind k) (address eb) (ins_len k)
+                                        (if is_label_kind k then l else nolbl) []] eb)
+                else e1 in
+      let e3 := set_address (w32 (address e2 + ins_len k)) e2 in
+      Done (match k with
+            | E2L => set_d8 (add_dangling (d8 e3) l (w32 (address e3 - 1))) e3
+            | E3L => set_d16 (add_dangling (d16 e3) l (w32 (address e3 - 2))) e3
+            | _ => e3
+            end)
   end.
 Definition emit1 (d : list Z) := emitK E1 d nolbl.
 Definition emit2 (d : list Z) := emitK E2 d nolbl.
@@ -210,10 +208,8 @@ Fixpoint db_loop (a0 blen i : Z) (cur : list Z) (caddr : Z) (bs : list Z) (acc :
 Definition db_lines (a0 : Z) (bs : list Z) : list line := db_loop a0 (zlen bs) 0 [] a0 bs [].
 
 (* EmitBytes(b): listing lines appended BEFORE write *)
-Definition emitBytes_lines (bs : list Z) (e : em) : em :=
-  if gen e then (let eb := emitBase e in add_lines (db_lines (address eb) bs) eb) else e.
 Definition EmitBytes (bs : list Z) (e : em) : outcome :=
-  let e1 := emitBytes_lines bs e in
+  let e1 := if gen e then (let eb := emitBase e in add_lines (db_lines (address eb) bs) eb) else e in
   match write bs e1 with
   | None => Refused e1
   | Some e2 => Done (set_address (w32 (address e2 + zlen bs)) e2)
